@@ -73,24 +73,25 @@ theorem interpreted_realised (ρ : ℕ → ℝ) : ∀ s ∈ interpretedNames,
   · exact ⟨⟨s, isort [0, 1], [], 1, true⟩, _, rfl, rfl,
       Or.inr (Or.inl ⟨0, 1, by decide, 0, hs, rfl, rfl, rfl⟩)⟩
 
-/-- an instruction list in which every flag is membership in the tree's set has no self-commuting `FREDKIN`
+/-- a flagged instruction has its name in the tree's set (the first guard of the same-name part) -/
+theorem flagged_inSet (a : Ins) (h : Gen.SchedRule.flagged a = true) : Gen.SchedRule.inSet a.name = true := by
+  unfold Gen.SchedRule.flagged at h
+  cases hi : Gen.SchedRule.inSet a.name with
+  | true => rfl
+  | false => simp [hi] at h
+
+/-- an instruction list in which every flag is the tree's flag has no self-commuting `FREDKIN`
 as soon as the tree's set does not list `FREDKIN` -/
 theorem tree_no_fredkin (hF : Gen.SchedRule.inSet "FREDKIN" = false) {ns : List Ins} (h : ∀ a ∈ ns, TreeIns a) :
     ∀ a ∈ ns, a.name = "FREDKIN" → a.sc = false := by
   intro a ha hn
   have := h a ha
-  unfold TreeIns Gen.SchedRule.flagged at this
-  rw [this, hn, hF, Bool.false_and]
-
-/-- on a tree whose rule has the guard on gates given by many targets (`lenBound = some k`), an instruction with more
-than `k` targets is never flagged — e.g. `TOFFOLI([c1, c2, t])` as the library's class builds it (all three qubits as
-targets, no controls): such a position is covered by the opaque clause of `GateOK` (any operator on its used qubits) -/
-theorem tree_long_targets_unflagged {a : Ins} (h : TreeIns a) {k : Nat} (hk : Gen.SchedRule.lenBound = some k)
-    (hl : k < a.targets.length) : a.sc = false := by
-  unfold TreeIns Gen.SchedRule.flagged at h
-  rw [h, hk]
-  simp only [Bool.and_eq_false_imp, decide_eq_false_iff_not]
-  intro _
-  omega
+  unfold TreeIns at this
+  cases hf : Gen.SchedRule.flagged a with
+  | false => rw [this, hf]
+  | true =>
+    have := flagged_inSet a hf
+    rw [hn, hF] at this
+    cases this
 
 end QipVerif
